@@ -228,7 +228,7 @@ def op_obj(case, idx, auto_tag=True, auto_id=True):
     if case.get("tags") is not None:
         o["tags"] = list(case["tags"])
     elif auto_tag:
-        o["tags"] = [tag_name(idx)]
+        o["tags"] = [tag_name(idx)] + ([tag_name(idx) + "zz"] if case.get("two_tags") else [])
     ps = [param_obj(p) for p in case["params"] if p["at"] in ("op", "both")]
     if ps:
         o["parameters"] = ps
